@@ -769,6 +769,9 @@ func runC04(cfg runCfg) error {
 		r.renderSeq(tree, &sb, r.chance(0.4))
 		doc := sb.String()
 		c := seqCase{Kind: "roundtrip", Opts: o, Doc: doc, Tree: tree, Prefix: r.pick(blanks), Indent: r.pick(blanks)}
+		if run.sum.Evaluations%7 == 0 {
+			c04Entry(run, r) // the four entry points of the sequence decoder under a decoder configuration (c01entry.go)
+		}
 		run.count(fmt.Sprintf("doc-size:%d", c04MinInt(tree.size()/5*5, 40)))
 		if tree.textBesideKids() {
 			run.count("doc:text-before-children")
